@@ -428,6 +428,8 @@ package gpbft
 //@   modifies auto
 //@   maypanic
 //@   ensures[the_decision_is_recorded_as_given] i.terminationValue == decision && i.value == old(decision.Vote.Value) && i.current.Phase == TERMINATED_PHASE
+//@   at NotifyProgress 1
+//@     before[the_new_progress_is_published] arg(1).Instant.Phase == TERMINATED_PHASE && arg(1).Instant.Round == i.current.Round && arg(1).Instant.ID == i.current.ID && i.current.Phase == TERMINATED_PHASE
 
 // What the participant reports is the recorded termination value of the instance it finishes.
 //@ func (*Participant).finishCurrentInstance
@@ -545,6 +547,8 @@ package gpbft
 //@     before[one_prepare_for_the_current_round_and_value] arg(1) == i.current.Round && arg(2) == PREPARE_PHASE && arg(3) == i.value && !arg(4) && arg(5) == justification
 //@   at return 0
 //@     before[exactly_one_broadcast] dominatedBy(broadcast, 1)
+//@   at NotifyProgress 1
+//@     before[the_new_progress_is_published] arg(1).Instant.Phase == PREPARE_PHASE && arg(1).Instant.Round == i.current.Round && arg(1).Instant.ID == i.current.ID && i.current.Phase == PREPARE_PHASE
 
 //@ func (*instance).beginCommit
 //@   property C07 C01
@@ -560,6 +564,8 @@ package gpbft
 //@     before[justified_by_the_prepare_quorum_of_this_round_for_this_value] arg(1) == res(FindStrongQuorumFor, 1, 0) && res(FindStrongQuorumFor, 1, 1) && arg(2) == i.current.Round && arg(3) == PREPARE_PHASE && arg(4) == i.value && argOf(FindStrongQuorumFor, 1, 1) == res(Key, 1) && argOf(Key, 1, 0) == i.value
 //@   at return 0
 //@     before[exactly_one_broadcast] dominatedBy(broadcast, 1)
+//@   at NotifyProgress 1
+//@     before[the_new_progress_is_published] arg(1).Instant.Phase == COMMIT_PHASE && arg(1).Instant.Round == i.current.Round && arg(1).Instant.ID == i.current.ID && i.current.Phase == COMMIT_PHASE
 
 //@ func (*instance).beginDecide
 //@   property C07 C01 C02
@@ -574,6 +580,8 @@ package gpbft
 //@          && argOf(FindStrongQuorumFor, 1, 1) == res(Key, 1) && argOf(Key, 1, 0) == i.value && argOf(FindStrongQuorumFor, 1, 0) == res(getRound, 1).committed && argOf(getRound, 1, 1) == round
 //@   at return 0
 //@     before[exactly_one_broadcast] dominatedBy(broadcast, 1)
+//@   at NotifyProgress 1
+//@     before[the_new_progress_is_published] arg(1).Instant.Phase == DECIDE_PHASE && arg(1).Instant.Round == i.current.Round && arg(1).Instant.ID == i.current.ID && i.current.Phase == DECIDE_PHASE
 
 //@ func (*instance).skipToDecide
 //@   property C07 C01
@@ -586,6 +594,8 @@ package gpbft
 //@     before[one_decide_with_round_zero_for_the_received_value_and_its_proof] arg(1) == 0 && arg(2) == DECIDE_PHASE && arg(3) == value && !arg(4) && arg(5) == justification
 //@   at return 0
 //@     before[exactly_one_broadcast] dominatedBy(broadcast, 1)
+//@   at NotifyProgress 1
+//@     before[the_new_progress_is_published] arg(1).Instant.Phase == DECIDE_PHASE && arg(1).Instant.Round == i.current.Round && arg(1).Instant.ID == i.current.ID && i.current.Phase == DECIDE_PHASE
 
 //@ func (*instance).beginConverge
 //@   property C07
@@ -597,6 +607,8 @@ package gpbft
 //@     before[one_converge_for_the_current_round_and_proposal_with_ticket_and_previous_round_proof] arg(1) == i.current.Round && arg(2) == CONVERGE_PHASE && arg(3) == i.proposal && arg(4) && arg(5) == justification && (i.current.Round >= 1 ==> justification.Vote.Round == i.current.Round - 1)
 //@   at return 0
 //@     before[exactly_one_broadcast] dominatedBy(broadcast, 1)
+//@   at NotifyProgress 1
+//@     before[the_new_progress_is_published] arg(1).Instant.Phase == CONVERGE_PHASE && arg(1).Instant.Round == i.current.Round && arg(1).Instant.ID == i.current.ID && i.current.Phase == CONVERGE_PHASE
 
 //@ func (*instance).beginQuality
 //@   property C07
@@ -609,6 +621,8 @@ package gpbft
 //@     before[one_quality_for_the_current_round_and_proposal] arg(1) == i.current.Round && arg(2) == QUALITY_PHASE && arg(3) == i.proposal && !arg(4) && arg(5) == nil
 //@   at return 0
 //@     before[a_successful_entry_broadcast_exactly_once] arg(0) == nil ==> dominatedBy(broadcast, 1)
+//@   at NotifyProgress 1
+//@     before[the_new_progress_is_published] arg(1).Instant.Phase == QUALITY_PHASE && arg(1).Instant.Round == i.current.Round && arg(1).Instant.ID == i.current.ID && i.current.Phase == QUALITY_PHASE
 
 // A new round is entered by adding one to the round and starting CONVERGE with proof from the round just left.
 //@ func (*instance).beginNextRound
@@ -647,6 +661,7 @@ package gpbft
 //@     before[only_after_the_converge_timeout_in_converge] old(i.current.Phase) == CONVERGE_PHASE && res(phaseTimeoutElapsed, 1)
 //@     before[winner_is_the_best_ticket_of_this_round_and_is_valid] winner == res(FindBestTicketProposal, 1) && argOf(FindBestTicketProposal, 1, 0) == res(getRound, 2).converged && argOf(getRound, 2, 1) == i.current.Round && res(IsValid, 1)
 //@     before[winner_becomes_proposal_and_value_and_a_candidate] i.proposal == winner.Chain && i.value == winner.Chain && arg(1) == winner.Justification
+//@     before[a_winner_that_was_not_a_candidate_is_made_one] res(isCandidate, 1) || called(addCandidate, 1)
 //@   at addCandidate 1
 //@     before[only_a_non_candidate_winner_is_added] !res(isCandidate, 1) && arg(1) == winner.Chain && argOf(isCandidate, 1, 1) == winner.Chain
 
@@ -1035,6 +1050,8 @@ package gpbft
 //@     before[a_message_for_a_later_instance_or_a_not_yet_started_one_is_queued] arg(1) == msg && msg.Vote.Instance >= currentInstance && (p.gpbft == nil || msg.Vote.Instance > currentInstance)
 //@   at return 1
 //@     before[an_old_message_is_dropped_without_error] arg(0) == nil && msg.Vote.Instance < currentInstance
+//@   at return 3
+//@     before[a_decision_reached_on_this_message_is_handled_at_once] arg(0) == nil && (called(Receive, 1) ==> called(handleDecision, 1))
 
 //@ func (*Participant).ReceiveAlarm
 //@   property C07
@@ -1045,6 +1062,8 @@ package gpbft
 //@     before[an_alarm_without_a_running_instance_starts_one] p.gpbft == nil
 //@   at ReceiveAlarm 1
 //@     before[otherwise_the_alarm_goes_to_the_running_instance] arg(0) == p.gpbft && p.gpbft != nil
+//@   at return 3
+//@     before[a_decision_reached_on_the_alarm_is_handled_at_once] arg(0) == nil && called(handleDecision, 1)
 
 //@ func (*Participant).StartInstanceAt
 //@   property C07
@@ -1140,3 +1159,33 @@ package gpbft
 //@     before[scaled_after_sorting_into_canonical_order] dominatedBy(Sort, 1) && arg(0) == p
 //@   at return 4
 //@     before[the_result_is_that_of_rescaling] arg(0) == res(rescale, 1)
+
+// Encoding a chain writes one tipset value per tipset, in order (the mirror image of UnmarshalCBOR above).
+//@ func (*ECChain).MarshalCBOR
+//@   property C14
+//@   modifies auto
+//@   maypanic
+//@   loop 1
+//@     invariant len(chain) == length && length == len(c.TipSets) && c.TipSets == old(c.TipSets) && 0 <= i && i < length && forall(j, 0, i, chain[j] == *c.TipSets[j], trigger(chain[j]))
+//@   at MarshalCBOR 1
+//@     before[one_tipset_value_per_tipset_in_order] arg(1) == w && (c == nil || len(c.TipSets) == 0 ==> len(chain) == 0) && (c != nil && len(c.TipSets) > 0 ==> len(chain) == len(c.TipSets) && forall(j, 0, len(chain), chain[j] == *c.TipSets[j], trigger(chain[j])))
+
+// ---- chain equality (C05 / C13 justification-value check, C19 consensus check, C07 tallies) ----
+// Two chains are equal when both are bottom, or neither is, they have the same number of tipsets and every pair of
+// tipsets at the same position is Equal; every position is compared.
+//@ func (*ECChain).Eq
+//@   property C05 C13 C19 C07 C01
+//@   modifies auto
+//@   maypanic
+//@   at return 1
+//@     before[a_bottom_chain_equals_only_a_bottom_chain] (c == nil || len(c.TipSets) == 0 || other == nil || len(other.TipSets) == 0) && arg(0) == ((c == nil || len(c.TipSets) == 0) == (other == nil || len(other.TipSets) == 0))
+//@   at return 2
+//@     before[chains_of_different_length_differ] !arg(0) && len(c.TipSets) != len(other.TipSets)
+//@   at return 3
+//@     before[chains_with_a_differing_tipset_differ] !arg(0) && !res(Equal, 1)
+//@   at Equal 1
+//@     before[tipsets_are_compared_position_by_position] arg(0) == c.TipSets[i] && arg(1) == other.TipSets[i]
+//@   loop 1
+//@     invariant c.TipSets == old(c.TipSets) && len(c.TipSets) == len(other.TipSets)
+//@   at return 4
+//@     before[equal_only_after_every_position_was_compared] arg(0) && len(c.TipSets) == len(other.TipSets) && len(c.TipSets) > 0
